@@ -27,6 +27,7 @@ type Config struct {
 	SnapPad   int
 	Timed     bool // global tick clock (C15-C17)
 	StoreHook bool // storage calls are crash points
+	Asym      bool // one-directional partitions are in the alphabet
 }
 
 type Budget struct {
@@ -39,14 +40,15 @@ type Budget struct {
 	Reorders                         int // <0: any delivery order is free
 	Splits                           int // deliveries whose reply is withheld (<0: every delivery)
 	ClientTimeouts                   int
+	Cuts                             int // partition changes (isolate / mute / deafen / heal)
 	// Deviations bounds the number of times the environment departs from the
 	// default (first enabled, simplest-first) event; <0 = unbounded.
 	Deviations int
 }
 
 func (b Budget) String() string {
-	return fmt.Sprintf("to%d el%d ti%d be%d wr%d rd%d lr%d dr%d drr%d du%d cr%d ar%d rs%d mb%d ro%d sp%d ct%d fe%d dv%d",
-		b.Timeouts, b.Elapses, b.Ticks, b.Beats, b.Writes, b.Reads, b.LeaseReads, b.Drops, b.DropReplies, b.Dups, b.Crashes, b.Arms, b.Restarts, b.Members, b.Reorders, b.Splits, b.ClientTimeouts, b.FreeElapses, b.Deviations)
+	return fmt.Sprintf("to%d el%d ti%d be%d wr%d rd%d lr%d dr%d drr%d du%d cr%d ar%d rs%d mb%d ro%d sp%d ct%d fe%d dv%d cu%d",
+		b.Timeouts, b.Elapses, b.Ticks, b.Beats, b.Writes, b.Reads, b.LeaseReads, b.Drops, b.DropReplies, b.Dups, b.Crashes, b.Arms, b.Restarts, b.Members, b.Reorders, b.Splits, b.ClientTimeouts, b.FreeElapses, b.Deviations, b.Cuts)
 }
 
 // Event is one environment step.
@@ -123,6 +125,8 @@ type Cluster struct {
 	Hist   []string // order of invocations and resolutions: "i3", "r3+", "r3-"
 	Fsm    []FsmCall
 	Armed  map[int]*ArmSpec
+	// Blocked[a][b]: messages from a to b (requests and replies) are held.
+	Blocked [][]bool
 	crashQ []int
 	Tick   int64
 	// StorageSeen is called for every storage hook (monitors).
@@ -159,6 +163,10 @@ func New(cfg Config, b Budget) *Cluster {
 	vtime.Reset()
 	c := &Cluster{Cfg: cfg, B: b, Armed: map[int]*ArmSpec{}}
 	c.Net = &Network{C: c, seq: map[string]int{}}
+	c.Blocked = make([][]bool, cfg.Voters+cfg.Spares)
+	for i := range c.Blocked {
+		c.Blocked[i] = make([]bool, cfg.Voters+cfg.Spares)
+	}
 	vsched.RandHook = func(n int64) int64 { return 0 }
 	vsched.OnExit = func(node, code int) {
 		if node >= 0 && node < len(c.Nodes) {
@@ -414,7 +422,7 @@ func (c *Cluster) Apply(e Event) error {
 		}
 		c.Net.runHandler(m, false)
 		c.settle()
-		if m.State == MHandled {
+		if m.State == MHandled && !c.Blocked[m.To][m.From] {
 			m.State = MDone
 			m.Replied = true
 			c.Net.remove(m)
@@ -520,6 +528,30 @@ func (c *Cluster) Apply(e Event) error {
 		c.B.ClientTimeouts--
 		op.Gone = true
 		c.Hist = append(c.Hist, fmt.Sprintf("x%d", op.ID))
+	case "isolate", "mute", "deafen":
+		c.B.Cuts--
+		for j := range c.Nodes {
+			if j == e.N {
+				continue
+			}
+			if e.K != "deafen" {
+				c.Blocked[e.N][j] = true
+			}
+			if e.K != "mute" {
+				c.Blocked[j][e.N] = true
+			}
+		}
+	case "cut":
+		c.B.Cuts--
+		c.Blocked[e.N][e.A] = true
+		c.Blocked[e.A][e.N] = true
+	case "heal":
+		c.B.Cuts--
+		for i := range c.Blocked {
+			for j := range c.Blocked[i] {
+				c.Blocked[i][j] = false
+			}
+		}
 	case "crash":
 		if !c.Nodes[e.N].Alive {
 			return fmt.Errorf("crash: n%d is down", e.N)
@@ -586,14 +618,14 @@ func (c *Cluster) enabledAll() []Event {
 	// oldest request per destination is free; overtaking costs a reorder unit
 	oldestTo := map[int]int{}
 	for _, m := range msgs {
-		if m.State == MSent {
+		if m.State == MSent && !c.Blocked[m.From][m.To] {
 			if _, ok := oldestTo[m.To]; !ok {
 				oldestTo[m.To] = m.Order
 			}
 		}
 	}
 	for _, m := range uniq {
-		if m.State == MSent {
+		if m.State == MSent && !c.Blocked[m.From][m.To] {
 			a := 0
 			if c.B.Reorders >= 0 && oldestTo[m.To] != m.Order {
 				if c.B.Reorders == 0 {
@@ -620,7 +652,7 @@ func (c *Cluster) enabledAll() []Event {
 		}
 	}
 	for _, m := range uniq {
-		if m.State == MHandled && c.Net.senderAlive(m) {
+		if m.State == MHandled && c.Net.senderAlive(m) && !c.Blocked[m.To][m.From] {
 			ev = append(ev, Event{K: "reply", M: m.ID})
 		}
 	}
@@ -696,6 +728,40 @@ func (c *Cluster) enabledAll() []Event {
 		for _, m := range uniq {
 			if (m.State == MSent || m.State == MHandled) && m.Dups == 0 {
 				ev = append(ev, Event{K: "dup", M: m.ID})
+			}
+		}
+	}
+	if c.B.Cuts > 0 && len(c.Nodes) > 1 {
+		any := false
+		for i := range c.Blocked {
+			for j := range c.Blocked[i] {
+				any = any || c.Blocked[i][j]
+			}
+		}
+		if any {
+			ev = append(ev, Event{K: "heal"})
+		}
+		for i, n := range c.Nodes {
+			if !n.Alive {
+				continue
+			}
+			out, in := true, true
+			for j := range c.Nodes {
+				if j != i {
+					out = out && c.Blocked[i][j]
+					in = in && c.Blocked[j][i]
+				}
+			}
+			if !out || !in {
+				ev = append(ev, Event{K: "isolate", N: i})
+			}
+			if c.Cfg.Asym {
+				if !out {
+					ev = append(ev, Event{K: "mute", N: i})
+				}
+				if !in {
+					ev = append(ev, Event{K: "deafen", N: i})
+				}
 			}
 		}
 	}
@@ -796,4 +862,41 @@ func (c *Cluster) hasPendingRead(node int) bool {
 		}
 	}
 	return false
+}
+
+// ParseEvent parses the textual form produced by Event.String (seeds and
+// scripts are written in it).
+func ParseEvent(s string) (Event, error) {
+	f := strings.Fields(s)
+	if len(f) == 0 {
+		return Event{}, fmt.Errorf("empty event")
+	}
+	e := Event{K: f[0]}
+	for _, w := range f[1:] {
+		switch {
+		case strings.HasPrefix(w, "a="):
+			fmt.Sscan(w[2:], &e.A)
+		case w == "!":
+			e.D = true
+		case len(w) > 1 && w[0] == 'n' && w[1] >= '0' && w[1] <= '9' && !strings.Contains(w, ">"):
+			fmt.Sscan(w[1:], &e.N)
+		case strings.Contains(w, ">"):
+			e.M = w
+		default:
+			e.S = w
+		}
+	}
+	return e, nil
+}
+
+func MustParse(lines ...string) []Event {
+	var out []Event
+	for _, l := range lines {
+		e, err := ParseEvent(l)
+		if err != nil {
+			panic(err)
+		}
+		out = append(out, e)
+	}
+	return out
 }
